@@ -38,6 +38,13 @@ Calibration
 * searchsorted(sorter=...) is documented unsupported and not generated; ravel() of some zero-length n-d chunkings
   raises NotImplementedError -> counted as unsupported.
 * a wrong computed shape is reported once (not again as lazy-shape).
+
+Sibling facet (vf/mon/siblings.py): every case is also built a second time with ONE result-relevant parameter changed
+(another minlength / bins / range / density / right / side / invert / axis / mode / order / dims / coarsening factor or reduction).
+The two lazily built collections must not share output keys unless their stand-alone values are equal (label
+``<op>:<param>-not-in-name:siblings-share-keys``); for a seeded ~15 % of the cases both are also computed in one graph and
+compared with their stand-alone values (``<op>:<param>:differs-when-computed-with-sibling``).  Counters siblings_built /
+siblings_computed_together / siblings_with_different_values have floors.
 """
 from __future__ import annotations
 
